@@ -306,6 +306,10 @@ def k_limit(spec, cfg, b: Batch) -> int:
 
 
 def run_index_case(case):
+    """one index fault.  The parent (c14.judge) treats as violations only: death / hang of this process, an
+    exception after which state_dict()/plain attributes changed, and a continuation that differs from the twin.
+    A call that returns normally satisfies C14; the fields `returned`, `compute`, `oracle` only DESCRIBE what
+    was returned (input-distribution counts and the `accepted_out_of_range_inputs` note)."""
     kind, si, ci, fault, cseed = case
     spec = SPECS[si]
     fam, rest = fault.split(":", 1)
